@@ -25,6 +25,9 @@ type cfg struct {
 	Keys int    `json:"keys"`
 	Vals int    `json:"values"`
 	Cmp  string `json:"cmp"` // natural (omap.New), scaled (NewFunc 3*(a-b)), reversed (NewFunc 3*(b-a))
+	// Light: the delete-while-iterating loop only for the predicates "all",
+	// "even keys", "odd keys" and each single key instead of every subset.
+	Light bool `json:"light,omitempty"`
 }
 
 type kv struct{ k, v int }
@@ -277,6 +280,9 @@ func (s *inst) deleteLoops() *mc.Failure {
 		return nil
 	}
 	for mask := 1; mask < 1<<s.c.Keys; mask++ {
+		if s.c.Light && mask != 1<<s.c.Keys-1 && mask != 0x5555&(1<<s.c.Keys-1) && mask != 0xaaaa&(1<<s.c.Keys-1) && mask&(mask-1) != 0 {
+			continue
+		}
 		hits := false
 		for _, e := range es {
 			if mask&(1<<e.k) != 0 {
@@ -471,6 +477,13 @@ func main() {
 					}
 					res := makeBFS(c, &cnt, r.Hooks, depth).Run(r)
 					sum = append(sum, map[string]any{"cmp": cm, "keys": c.Keys, "states": res.States, "transitions": res.Transitions, "depth": res.Depth, "exhaustive": res.Exhaustive})
+				}
+				if r.Hooks {
+					// more keys, one value: an entry can sit deeper than the depth limit of the
+					// shrunken map only from 7 keys on (limit(7)=4, limit(6)=3 at omap's balance)
+					c := &cfg{Keys: mc.Pick(r, 7, 8), Vals: 1, Cmp: "natural", Light: true}
+					res := makeBFS(c, &cnt, true, 0).Run(r)
+					sum = append(sum, map[string]any{"cmp": c.Cmp, "keys": c.Keys, "values": 1, "light": true, "states": res.States, "transitions": res.Transitions, "depth": res.Depth, "exhaustive": res.Exhaustive})
 				}
 				r.Extra("configurations", sum)
 				r.Count("seek_walks", cnt.seeks)
